@@ -64,3 +64,21 @@ Theorem c12_refresh_chain : forall flags cur s,
              (flags <> [] -> t_access s' = cur + length flags).
 Proof. exact chain_never_presents_consumed_token. Qed.
 Print Assumptions c12_refresh_chain.
+
+(* ---- providers without refresh support: the re-stamped session is written before it is validated ---- *)
+From V.Model Require StampRace.
+From V.Proofs Require StampRaceProofs.
+
+(* the clause "never honoured without first being refreshed with, or re-validated by, the identity
+   provider" is false of the faithful model and of the code under concurrency (known finding F22):
+   a second request that loads the session between the write and the removal is served *)
+Theorem c12_write_before_validate_refuted :
+  exists sched, StampRace.is_served (StampRace.p1 (StampRace.run false StampRace.init sched)) = true.
+Proof. exact StampRaceProofs.stamp_race_refuted. Qed.
+Print Assumptions c12_write_before_validate_refuted.
+
+(* the same transition system with validation before the write: for every interleaving nobody is served *)
+Theorem c12_validate_before_write_safe : forall sched,
+  StampRace.someone_served (StampRace.run true StampRace.init sched) = false.
+Proof. exact StampRaceProofs.stamp_race_validate_first. Qed.
+Print Assumptions c12_validate_before_write_safe.
